@@ -1427,6 +1427,10 @@ class IndexedAdvancedHTMLParser(AdvancedHTMLParser):
             for value in values:
                 elements += TagCollection(_otherAttributeIndexes[attrName].get(value, []))
 
+            if isFromRoot is False:
+                _hasTagInParentLine = self._hasTagInParentLine
+                elements = TagCollection([x for x in elements if _hasTagInParentLine(x, root)])
+
             return elements
 
         return AdvancedHTMLParser.getElementsWithAttrValues(self, attrName, values, root)
